@@ -428,6 +428,7 @@ structure MethodOK (m : MethodSpec) : Prop where
   clean : toksClean (tokenize m.path)
   phOk : ∀ n ∈ placeholders m.path,
     (m.alias.any (fun kv => kv.2 == String.ofList n) || !m.alias.any (fun kv => kv.1 == String.ofList n)) = true
+  phParam : ∀ n ∈ placeholders m.path, resolve m (String.ofList n) ∈ m.params.map (·.name)
   fields : ∀ p ∈ m.params, ((fieldsOf p).map (·.name)).Nodup
   fieldKeys : ∀ p ∈ m.params, ∀ f ∈ fieldsOf p, (fieldKey f).isEmpty = false
   noQual : ∀ p ∈ m.params, p.kind ≠ .qualOther
